@@ -10,7 +10,7 @@ Theorem wraps_same_signature f : wf_func f ->
     sig_of (b_func g) = sig_of f /\
     f_name (b_func g) = f_name f /\ f_doc (b_func g) = f_doc f /\
     f_module (b_func g) = f_module f /\ f_async (b_func g) = f_async f /\
-    b_wrapped_is_func g = true /\
+    d_get (f_dict (b_func g)) K_WRAPPED = Some (f_id f) /\
     b_inv g = inv_of_params (sg_params (func_sig f)).
 Proof.
   intro WF. pose proof (update_wrapper_refines f [] [] WF (Forall_nil _)) as R.
@@ -185,9 +185,10 @@ Qed.
 
 (* ---- examples: the hypotheses are inhabited by non-trivial states ------------------------------ *)
 (* def f(a: A1, b=V7, c=V8, *args, d, e: A3 = V9, **kw) -> A2 *)
+(* ... which already carries attributes: a tag and a __wrapped__ pointing elsewhere (function 90) *)
 Definition ex_f : pyfunc :=
   mkF 0 (Some 1) (Some 1) [1; 2; 3] (Some 6) [4; 5] (Some 11)
-      (Some [7; 8]) (Some [(5, 9)]) [(1, 1); (5, 3); (RET, 2)] false.
+      (Some [7; 8]) (Some [(5, 9)]) [(1, 1); (5, 3); (RET, 2)] false 100 [(3, 5); (K_WRAPPED, 90)].
 
 Lemma ex_f_wf : wf_func ex_f.
 Proof.
@@ -216,11 +217,12 @@ Proof. reflexivity. Qed.
 Lemma ex_wrapped :
   match update_wrapper ex_f [] [] with
   | Ok g => sig_of (b_func g) = sig_of ex_f /\
+            d_get (f_dict (b_func g)) K_WRAPPED = Some 100 /\ d_get (f_dict (b_func g)) 3 = Some 5 /\
             call_built ex_f g true ex_call =
               (Some (mkCall [10; 20; 30; 40] [(4, 50); (5, 9); (14, 60)]), call_func ex_f ex_call)
   | Raise _ => False
   end.
-Proof. vm_compute. split; reflexivity. Qed.
+Proof. vm_compute. repeat split; reflexivity. Qed.
 
 (* injected=['b', 'd']: (a: A1, c=V8, *args, e: A3 = V9, **kw) -> A2 *)
 Lemma ex_inject :
@@ -253,14 +255,14 @@ Definition add_arg_pinned (b : fbuilder) (n : name) (d : option value) : res fbu
                  | Some v => Some (odflt (fb_defaults b) ++ [v])
                  | None => fb_defaults b
                  end)
-                (fb_kwonly b) (fb_kwdefaults b) (fb_annotations b) (fb_async b)).
+                (fb_kwonly b) (fb_kwdefaults b) (fb_annotations b) (fb_async b) (fb_dict b)).
 
 (* def f(a, b=V7) + expected=['c']  gave  (a, b, c=V7): DESIGN Appendix B #24 *)
 Lemma pinned_expect_refuted :
   exists f n, wf_func f /\ n <> 0 /\
     match from_func f with
     | Ok b0 => match add_arg_pinned b0 n None with
-               | Ok b1 => match get_func b1 with
+               | Ok b1 => match get_func b1 0 true with
                           | Ok g => sig_of g = Ok (mkSig [mkP 1 PosOrKw None None; mkP 2 PosOrKw None None;
                                                           mkP 3 PosOrKw (Some 7) None] None)
                           | Raise _ => False
@@ -270,7 +272,7 @@ Lemma pinned_expect_refuted :
     | Raise _ => False
     end.
 Proof.
-  exists (mkF 0 None None [1; 2] None [] None (Some [7]) None [] false), 3.
+  exists (mkF 0 None None [1; 2] None [] None (Some [7]) None [] false 100 []), 3.
   split; [|split; [discriminate | vm_compute; reflexivity]].
   constructor.
   - apply nodup_b_NoDup. reflexivity.
